@@ -34,6 +34,23 @@ def cases(tier, seed):
         cfg["det"] = scat.gen_grid(rng, maxn=8 if kind.startswith(("lens", "tmatrix")) else 11)
         cost = 8 if kind.startswith(("lens", "tmatrix", "multi")) else 1
         out.append({"id": "pos-%d" % i, "kind": "pos", "ckind": kind, "cfg": cfg, "seed": [seed, "pos", i], "cost": cost})
+    # more than a thousand locations in one call (theories may work through long lists in blocks): grid vs crops vs points
+    for i, kind in enumerate(["lens_mie", "mie_sphere", "mielens"] if tier == "quick" else ["lens_mie", "mie_sphere", "mielens", "multisphere", "lens_mie", "aberrated"]):
+        cfg = scat.gen_config(rng, kind)
+        cfg["det"] = {"t": "grid", "shape": [[35, 30], [32, 33], [41, 27]][i % 3], "spacing": [0.11, 0.13]}
+        if cfg["theory"]["t"] == "Lens":
+            cfg["theory"]["nth"], cfg["theory"]["nphi"] = 10, 16      # coarse quadrature: the same on every side of the comparison
+        out.append({"id": "pos-big-%d" % i, "kind": "pos", "ckind": kind, "cfg": cfg, "seed": [seed, "posbig", i], "cost": 30})
+    # explicit points at different heights: the value at a point does not depend on which other points are listed with it
+    for i in range(30 if tier == "quick" else 600):
+        kind = ["mie_sphere", "lens_mie", "multisphere", "mie_layered", "lens_mie", "tmatrix_spheroid"][i % 6]
+        cfg = scat.gen_config(rng, kind)
+        if cfg["theory"]["t"] == "Lens":
+            cfg["theory"]["nth"], cfg["theory"]["nphi"] = 12, 20
+        npt = int(rng.integers(2, 7))
+        cfg["det"] = {"t": "points", "x": [float(v) for v in rng.uniform(-2, 4, npt)], "y": [float(v) for v in rng.uniform(-2, 4, npt)],
+                      "z": [float(v) for v in rng.uniform(-1.0, 1.5, npt)]}
+        out.append({"id": "zpts-%d" % i, "kind": "zpoints", "ckind": kind, "cfg": cfg, "seed": [seed, "zpts", i], "cost": 6})
     ns = 80 if tier == "quick" else 2000
     for i in range(ns):
         shape = [int(rng.integers(1, 14)), int(rng.integers(1, 14))]
@@ -123,6 +140,24 @@ def _holo(det, cfg, s, th):
 @scat.guarded
 def run_case(case):
     return globals()["_run_" + case["kind"]](case)
+
+
+def _run_zpoints(case):
+    """points at different heights: listed together (in two orders) or one at a time, the value at a point is the same"""
+    cfg = case["cfg"]
+    rng = rng_for(*case["seed"])
+    s = scat.build_scatterer(cfg["scat"])
+    th = scat.build_theory(cfg["theory"])
+    d = cfg["det"]
+    n = len(d["x"])
+    allp = _holo(scat.build_detector(d), cfg, s, th).values
+    perm = [int(v) for v in rng.permutation(n)]
+    dp = {"t": "points", "x": [d["x"][k] for k in perm], "y": [d["y"][k] for k in perm], "z": [d["z"][k] for k in perm]}
+    permuted = _holo(scat.build_detector(dp), cfg, s, th).values
+    single = np.array([_holo(scat.build_detector({"t": "points", "x": [d["x"][k]], "y": [d["y"][k]], "z": [d["z"][k]]}), cfg, s, th).values[0] for k in range(n)])
+    t = cfg["theory"]["t"]
+    resid = {"zpoints_reordered@" + t: relmax(permuted, allp[perm]), "zpoints_single@" + t: relmax(single, allp)}
+    return {"resid": resid, "flags": {}, "hptp": 1.0, "npix": n}
 
 
 def _run_pos(case):
